@@ -379,9 +379,9 @@ pub fn selftest_determinism(seed: u64, n: u64) -> i32 {
         for ci in 0..n {
             let case_seed = crate::rng::mix(crate::rng::mix(seed, crate::explore::str_hash(prop.id)), ci);
             let mut rng = crate::rng::Rng::new(case_seed);
-            let base = (prop.gen)(&mut rng, false);
+            let base = crate::explore::gen_case(prop, &mut rng, false);
             // Fault / drop-point variants are part of what must be deterministic.
-            let variants = (prop.variants)(&base, false);
+            let variants = crate::explore::gen_variants(prop, &base, false);
             let pick = [0usize, variants.len() / 3, variants.len() / 2, variants.len().saturating_sub(1)];
             let vi = pick[(ci % 4) as usize].min(variants.len().saturating_sub(1));
             let case = Arc::new(variants.into_iter().nth(vi).unwrap_or(base));
